@@ -101,13 +101,19 @@ func New(property, level string) *Run {
 	seed, _ := strconv.ParseInt(os.Getenv("VERIF_SEED"), 10, 64)
 	r := &Run{Property: property, Level: level, Tier: *FlagTier, Seed: seed, start: time.Now(),
 		knownHits: map[string]int{}, known: map[string]Finding{}, extra: map[string]any{}}
-	b, err := os.ReadFile(filepath.Join(Root(), "known_findings.json"))
-	if err == nil {
+	files := []string{filepath.Join(Root(), "known_findings.json")}
+	frag, _ := filepath.Glob(filepath.Join(Root(), "findings.d", "*.json"))
+	files = append(files, frag...)
+	for _, kf := range files {
+		b, err := os.ReadFile(kf)
+		if err != nil {
+			continue
+		}
 		var fs struct {
 			Findings []Finding `json:"findings"`
 		}
 		if err := json.Unmarshal(b, &fs); err != nil {
-			r.HarnessError("known_findings.json: " + err.Error())
+			r.HarnessError(kf + ": " + err.Error())
 		}
 		for _, f := range fs.Findings {
 			if f.Property == property && f.Status == "known" {
